@@ -249,9 +249,26 @@ fn plan_fci(f: &Fci, t: &mut Tape) -> FciPlan {
             let mut uniq: Vec<u32> = entries.iter().map(|e| e.0).collect();
             uniq.sort_unstable();
             uniq.dedup();
-            // (and no history for the rare very large maps: the fix-up below is quadratic)
-            if uniq.len() != entries.len() || entries.len() > 512 {
+            if uniq.len() != entries.len() {
                 return FciPlan::Fir(entries.clone());
+            }
+            // the rare very large maps (the fix-up below is quadratic) get a linear history: up to two
+            // entries far into the map are first added with a stale sequence and added again, with
+            // the final one, after everything else
+            if entries.len() > 512 {
+                let mut adds = entries.clone();
+                let n = entries.len();
+                for _ in 0..t.choose(3) {
+                    let k = match t.choose(4) {
+                        0 => n - 1,
+                        1 => n / 2 + 1,
+                        2 => 8200.min(n - 1),
+                        _ => t.value() as usize % n,
+                    };
+                    adds[k].1 = entries[k].1.wrapping_add(1);
+                    adds.push(entries[k]);
+                }
+                return FciPlan::Fir(adds);
             }
             // stale (ssrc, other sequence) adds, then shuffle the positions, then make sure the
             // final value of each ssrc sits at that ssrc's last position
